@@ -203,6 +203,12 @@ func TestCrashC04(t *testing.T) { common.Run(t, "C04", "CrashC04", genCase("C04"
 func TestCrashC13(t *testing.T) { common.Run(t, "C13", "CrashC13", genCase("C13"), runFor("C13")) }
 func TestCrashC09(t *testing.T) { common.Run(t, "C09", "CrashC09", genCase("C09"), runFor("C09")) }
 
+// TestCrashC09Trunc judges the format verdict (a segment sealed in the metadata has its index frame,
+// committed, at IndexStart) over the truncation-heavy workloads of the C04 generator.
+func TestCrashC09Trunc(t *testing.T) {
+	common.Run(t, "C09", "CrashC09Trunc", genCase("C04"), runFor("C09"))
+}
+
 // TestDebugReplay prints an execution trace of a saved case: VERIF_REPLAY=<file> VERIF_PROP=<id>.
 func TestDebugReplay(t *testing.T) {
 	rp := os.Getenv("VERIF_DEBUG_REPLAY")
